@@ -16,31 +16,41 @@ ASSUMPTIONS = ['payload theorems: carried elements are spliced in as identical v
 SPECIAL = ['plain', 'a & b', '<tag>', '"quoted" \'single\'', ']]>', 'café ☃', '\U0001F600 astral', '  spaced  ', 'line\nbreak\ttab', '']
 
 
-def deep(rng, depth):
+# vendor XML in a namespace of its own (as ElementTree names it): foreign elements called item, story, p, storyID ...
+NS_TAGS = ['{urn:vendor:video}clip', '{urn:vendor:gfx}item', '{urn:vendor:gfx}story', '{urn:vendor:gfx}p', '{urn:vendor:gfx}storyID',
+           '{urn:vendor:gfx}itemID', '{urn:vendor:video}mosPayload']
+
+
+def deep(rng, depth, ns=False):
+    """ns: a third of the elements (and some attributes) are in an XML namespace - not for checks that compare with the
+    model serialiser, which has no namespaces"""
     kids = []
     if depth > 0:
         for _ in range(rng.randrange(0, 3)):
-            kids.append(deep(rng, depth - 1))
-    e = E(rng.choice(['meta', 'field', 'group', 'x', 'L\u00e4nge', '\u503c']), *kids, text=rng.choice(SPECIAL + [None]), tail=rng.choice([None, ' t ', '\n', 'tail & more']))
+            kids.append(deep(rng, depth - 1, ns))
+    tag = rng.choice(NS_TAGS) if ns and rng.random() < 0.35 else rng.choice(['meta', 'field', 'group', 'x', 'L\u00e4nge', '\u503c'])
+    e = E(tag, *kids, text=rng.choice(SPECIAL + [None]), tail=rng.choice([None, ' t ', '\n', 'tail & more']))
     if rng.random() < 0.5:
-        e.set(rng.choice(['kind', 'id', 'lang', 'gepr\u00fcft']), rng.choice(SPECIAL))
+        e.set(rng.choice(['kind', 'id', 'lang', 'gepr\u00fcft'] + (['{urn:vendor:video}rate', '{urn:vendor:gfx}id'] if ns else [])), rng.choice(SPECIAL))
     return e
 
 
-def rich_item(rng, iid, depth):
-    e = item(iid, slug=rng.choice(SPECIAL), extra=[deep(rng, depth) for _ in range(rng.randrange(0, 3))])
+def rich_item(rng, iid, depth, ns=False):
+    e = item(iid, slug=rng.choice(SPECIAL), extra=[deep(rng, depth, ns) for _ in range(rng.randrange(0, 3))])
     e.tail = rng.choice([None, '\n  ', 'x'])
     return e
 
 
-def rich_story(rng, sid, depth):
+def rich_story(rng, sid, depth, ns=False):
     body = []
     for j in range(rng.randrange(0, 4)):
         if rng.random() < 0.5:
             body.append(E('p', text=rng.choice(SPECIAL), tail=rng.choice([None, ' ', 'after'])))
-        body.append(rich_item(rng, 'p%d' % j, depth))
+        body.append(rich_item(rng, 'p%d' % j, depth, ns))
+        if ns and rng.random() < 0.2:
+            body.append(E('{urn:vendor:gfx}item', E('{urn:vendor:gfx}itemID', text='p%d' % j), E('itemID', text='foreign')))
     e = story(sid, body=body, slug=rng.choice(SPECIAL), meta=payload(duration='5') if rng.random() < 0.5 else None,
-              extra=[deep(rng, depth)])
+              extra=[deep(rng, depth, ns)])
     e.set('rev', rng.choice(SPECIAL))
     e.tail = rng.choice([None, '\n', 'tail'])
     return e
@@ -65,7 +75,7 @@ class Check(AddCheck):
     pid = 'C04'
     needs_claims = False
     rule = ('seeded random payloads: 0..3 carried stories / items of nesting depth <=4 [<=7] with attributes, mixed text and tails, '
-            'markup-significant and non-ASCII characters; roStorySend with storyBody at every position among its siblings, '
+            'markup-significant and non-ASCII characters, vendor elements and attributes in XML namespaces of their own (foreign item / story / p / storyID), comments and processing instructions between and inside the elements; roStorySend with storyBody at every position among its siblings, '
             'storyItem / p / other children interleaved; roReplace and roMetadataReplace with rich content; for all 13 '
             'payload-carrying classes, onto running orders with the target first / middle / last / blank. '
             'distinct by (class, #carried, target position, outcome)')
@@ -89,10 +99,11 @@ class Check(AddCheck):
                     rc_.text = '\n  '
                 ro = ET_.tostring(d_, encoding='unicode')
             tgt = rng.choice(sids + [None])
+            ns = rng.random() < 0.4              # vendor XML in namespaces of its own inside what is carried
             its = gens.ITEM_IDS[:2]
             itgt = rng.choice(its + [None])
-            new_s = [rich_story(rng, 'N%d' % j, rng.randrange(0, depth)) for j in range(rng.randrange(0, 4))]
-            new_i = [rich_item(rng, 'n%d' % j, rng.randrange(0, depth)) for j in range(rng.randrange(0, 4))]
+            new_s = [rich_story(rng, 'N%d' % j, rng.randrange(0, depth), ns) for j in range(rng.randrange(0, 4))]
+            new_i = [rich_item(rng, 'n%d' % j, rng.randrange(0, depth), ns) for j in range(rng.randrange(0, 4))]
             mid = 40
             docs = [
                 story_append(mid, new_s), story_insert(mid, tgt, new_s), story_replace(mid, tgt, new_s),
@@ -103,13 +114,13 @@ class Check(AddCheck):
                 element_action(mid, 'REPLACE', ea_target(sids[0], itgt), [new_i]),
             ]
             # roStorySend: storyBody at a random position
-            pre = [E('storySlug', text=rng.choice(SPECIAL))] + [deep(rng, 2) for _ in range(rng.randrange(0, 3))]
-            post = [deep(rng, 2) for _ in range(rng.randrange(0, 3))] + ([payload(duration='7')] if rng.random() < 0.5 else [])
+            pre = [E('storySlug', text=rng.choice(SPECIAL))] + [deep(rng, 2, ns) for _ in range(rng.randrange(0, 3))]
+            post = [deep(rng, 2, ns) for _ in range(rng.randrange(0, 3))] + ([payload(duration='7')] if rng.random() < 0.5 else [])
             body = []
             for j in range(rng.randrange(0, 5)):
                 c = rng.random()
                 if c < 0.4:
-                    si = rich_item(rng, 'b%d' % j, 2)
+                    si = rich_item(rng, 'b%d' % j, 2, ns)
                     si.tag = 'storyItem'
                     body.append(si)
                 elif c < 0.8:
@@ -126,15 +137,15 @@ class Check(AddCheck):
             if rng.random() < 0.3:
                 sb.text, sb.tail = '\n  ', ' after body '
             docs.append(ss)
-            rr = ro_replace(mid, [rich_story(rng, 'R%d' % j, 2) for j in range(rng.randrange(0, 3))] + [deep(rng, 2)])
+            rr = ro_replace(mid, [rich_story(rng, 'R%d' % j, 2, ns) for j in range(rng.randrange(0, 3))] + [deep(rng, 2, ns)])
             if rng.random() < 0.5:
                 rr[3].set('rev', '2')                # an attribute on roReplace (same name as one on roCreate) and leading text
                 rr[3].text = rng.choice([None, ' lead '])
             docs.append(rr)
-            docs.append(metadata_replace(mid, [E('roSlug', text=rng.choice(SPECIAL)), deep(rng, 3),
-                                               E('mosExternalMetadata', E('mosSchema', text='http://schema/ro'), E('mosPayload', deep(rng, 3)))]))
+            docs.append(metadata_replace(mid, [E('roSlug', text=rng.choice(SPECIAL)), deep(rng, 3, ns),
+                                               E('mosExternalMetadata', E('mosSchema', text='http://schema/ro'), E('mosPayload', deep(rng, 3, ns)))]))
             for d in docs:
-                yield {'ro': ro, 'msg': to_text(d), 'meta': {'cls': d[3].tag + (':' + d[3].get('operation', '') if d[3].get('operation') else ''), 'n': len(sids)}}
+                yield {'ro': ro, 'msg': gens.sprinkle(rng, to_text(d)), 'meta': {'cls': d[3].tag + (':' + d[3].get('operation', '') if d[3].get('operation') else ''), 'n': len(sids)}}
 
     def obs(self, o):
         if 'classerr' in o:
